@@ -66,10 +66,10 @@ def mk(kind, coord, digit, fxp=('BIN', None), unk=('BIN', None), twin='BIN', tar
 NOFULL = ['-DC02_TWIN_FULL=0']
 
 
-def probe_configs():
+def probe_configs(kind):
     """F4 (NOTES.md): an unknown-point window wider than the FXP window overruns the on-stack table in
     every call; these builds run four scalars per curve, just enough to show (or clear) it."""
-    return [mk('probe', coord, 8, fxp=('C1', 2), unk=('C1', 4), targets=T_UNK, tiny=(1 << 0), real=0, cost=1, extra=['-DC02_PROBE'])
+    return [mk(kind, coord, 8, fxp=('C1', 2), unk=('C1', 4), targets=T_UNK, tiny=(1 << 0), real=0, cost=1, extra=['-DC02_PROBE'])
             for coord in ('aff', 'jacMR')]
 
 
@@ -92,7 +92,7 @@ def quick_configs():
     q('jacMR', 8,  ('C2', 5),    ('C1', 3),    'INTER')
     q('jacMR', 64, ('C2', 9),    ('C1', 2),    'INTER')      # what tests/ecdsa/main.c compiles
     q('jacMR', 16, ('C1', 2),    ('C2', 2),    'BIN')
-    return c + probe_configs()[:1]
+    return c + probe_configs('qprobe')[:1]
 
 
 def algo_list(digit):
@@ -158,7 +158,7 @@ def thorough_configs():
     for coord in ('aff', 'jacMR'):
         c.append(mk('twinfu', coord, 64, fxp=('C2', 9), unk=('C1', 2), twin='FU', targets=T_TWIN,
                     real=(REAL_REPR_AFF if coord == 'aff' else REAL_REPR), cost=30, extra=NOFULL))
-    return c + probe_configs()
+    return c + probe_configs('probe')
 
 
 CFLAGS_COMMON = ['-fsanitize=address', '-fsanitize-recover=address', '-fno-omit-frame-pointer',
@@ -214,14 +214,15 @@ def run(tier):
         'ASan without the fake stack (no stack-use-after-return detection); every other ASan check on',
     ]
     bdir = core.build_dir(PROP)
-    for f in os.listdir(bdir):                 # binaries / progress files of an interrupted earlier run
+    configs = quick_configs() if tier == 'quick' else thorough_configs()
+    mine = set(c['name'] for c in configs)
+    for f in os.listdir(bdir):                 # binaries / progress files an interrupted earlier run of this tier left
         p = os.path.join(bdir, f)
-        if os.path.isfile(p) and f != 'real_expected.txt':
+        if os.path.isfile(p) and (f in mine or (f.startswith('progress.') and f[9:].rsplit('.', 1)[0] in mine)):
             try:
                 os.unlink(p)
             except OSError:
                 pass
-    configs = quick_configs() if tier == 'quick' else thorough_configs()
 
     # ---- expected points of the built-in curves (check time, from the working tree under test)
     if HERE not in sys.path:
